@@ -40,7 +40,7 @@ ASSUMPTIONS = [
 def C(name, props, **kw):
     d = dict(name=name, props=set(props.split()), targets=[b'a', b'b'], flavour='redo', keep_going=False, top_level=2, pipe0=1,
              others0=0, prior=None, other_locks=None, sub_target=None, shuffle=False, no_do=(), select_budget=0, race=(), deps=(),
-             free_at_try=None, cycles=(), foreign_parent=False)
+             free_at_try=None, cycles=(), foreign_parent=False, history=(), declares=None, default_do=False)
     d.update(kw)
     return d
 
@@ -101,6 +101,30 @@ def configs(thorough):
         C('ifchange a b inside top.do (redo-log may hold the log lock)', 'C08 C09', flavour='ifchange', top_level=0, pipe0=0, others0=1,
           sub_target=b'top'),
     ]
+    I = dict(flavour='ifchange', top_level=0, pipe0=1)
+    SRC = {b'src': (dict(is_generated=False, is_override=False, checked_runid=None, changed_runid=5, failed_runid=None, stamp=tuple(S1), csum=None), tuple(S1))}
+    cs += [
+        C('history: ifchange a; again, nothing changed', 'C02', targets=[b'a'], history=[dict(name='nothing changed', expect=[])], **I),
+        C('history: ifchange a; a removed', 'C02', targets=[b'a'], history=[dict(name='target removed', mutate='remove:a', expect=['a'])], **I),
+        C('history: ifchange a fails; again', 'C02 C05', targets=[b'a'],
+          history=[dict(name='failed last time, nothing changed', after_failure=True, only_after_failure=True, expect=['a'], result=None)], **I),
+        C('history: ifchange a b (each declares its source); source of b edited; then nothing', 'C02', prior=SRC,
+          declares={(97,): b'src', (98,): b'srcb'},
+          history=[dict(name='source of b edited', mutate='touch:srcb', expect=['b']), dict(name='nothing changed', expect=[])], **I),
+        C('history: ifchange a (declares src); src edited and the script stops declaring it; src edited again', 'C02', targets=[b'a'],
+          prior=SRC, declares={(97,): b'src'},
+          history=[dict(name='source edited', mutate='touch:src', expect=['a'], declares={}),
+                   dict(name='former source edited', mutate='touch:src', expect=[])], **I),
+        C('history: ifchange a; a.do edited', 'C02 C13', targets=[b'a'], history=[dict(name='.do edited', mutate='touch:a.do', expect=['a'])], **I),
+        C('history: ifchange a built by default.do; a.do appears', 'C02 C13', targets=[b'a'], no_do=(b'a',), default_do=True,
+          history=[dict(name='higher-priority .do created', mutate='create:a.do', expect=['a'], chosen='a.do'),
+                   dict(name='nothing changed', expect=[])], **I),
+        C('history: ifchange a built by a.do; a.do removed (default.do remains)', 'C02 C13', targets=[b'a'], default_do=True,
+          history=[dict(name='chosen .do removed', mutate='remove:a.do', expect=['a'], chosen='default.do')], **I),
+        C('history: ifchange a; a edited by hand; a removed', 'C02', targets=[b'a'],
+          history=[dict(name='target edited by hand', mutate='touch:a', expect=[], content={'a': 'edited-by-user'}),
+                   dict(name='edited target removed', mutate='remove:a', expect=['a'])], **I),
+    ]
     if thorough:
         cs += [
             C('redo a b c -j2', A, targets=[b'a', b'b', b'c']),
@@ -124,6 +148,27 @@ def configs(thorough):
             C('ifchange a b: a is up to date', 'C05 C07', flavour='ifchange', top_level=0, pipe0=1, prior={b'a': (CLEAN_ROW, tuple(S1))}),
         ]
     return cs
+
+
+def mutate(w, what):
+    """what the user does between two invocations"""
+    if not what:
+        return
+    for op in what if isinstance(what, (list, tuple)) else [what]:
+        kind, name = op.split(':', 1)
+        nm = tuple(name.encode())
+        if kind == 'touch':            # edited: new mtime, new size
+            w.fs[nm] = w.fresh_stamp()
+            w.content[nm] = 'edited-by-user'
+        elif kind == 'create':
+            w.fs[nm] = w.fresh_stamp()
+            w.content[nm] = 'created-by-user'
+        elif kind == 'remove':
+            w.fs[nm] = None
+            w.content.pop(nm, None)
+        else:
+            raise Unsupported('mutation %r' % op)
+        w.ev('user-' + kind, name=name)
 
 
 def norm_name(t):
@@ -152,6 +197,7 @@ def install(eng):
         items = getattr(v, 'items', None)
         name = bytes(items).decode('latin-1') if items is not None and all(isinstance(x, int) for x in items) else repr(v)
         e.world.ev('job-start', target=name)
+        e.world.pending_target = name
     eng.probes['JobServerHandle::start'] = probe_start
 
     # a job that is finished the moment it is created (future::ready(rv)): refused / no rule / nothing to do
@@ -187,6 +233,20 @@ def explore(chk, pid, scn=None):
         if only and only != 'sched' and only not in cfg['name']:
             continue
         run_config(chk, pid, cfg)
+    if pid == 'C02' and scn is not None and not chk.candidates:
+        # model validation: the histories' expectations (which scripts run after which user action) against the compiled binaries
+        for cfg in CFGS:
+            if not cfg['history'] or any(s_.get('only_after_failure') for s_ in cfg['history']):
+                continue
+            try:
+                dev, detail = history_replay(scn, {'witness': {'config': cfg['name']}})
+            except Exception as e:
+                dev, detail = True, 'scenario failed: %s' % e
+            if dev:
+                chk.inconclusive.append('history expectation disagrees with the real binaries on the unchanged obligations: %s: %s' % (
+                    cfg['name'], detail[-300:]))
+            else:
+                chk.validated += 1
 
 
 def run_config(chk, pid, cfg):
@@ -202,9 +262,10 @@ def run_config(chk, pid, cfg):
                                          pipe0=cfg['pipe0'], others0=cfg['others0'], runid=R, should_build=sb, max_wakeups=12,
                                          prior=cfg['prior'], other_locks=cfg['other_locks'], sub_target=cfg['sub_target'],
                                          shuffle=cfg['shuffle'], no_do=cfg['no_do'], race=cfg['race'], deps=cfg['deps'],
-                                         free_at_try=cfg['free_at_try'], cycles=cfg['cycles'])
+                                         free_at_try=cfg['free_at_try'], cycles=cfg['cycles'], default_do=cfg['default_do'])
         w.select_budget = cfg['select_budget']
-        st.update(w=w, hang=None, res=None, r2=None, phase='run')
+        w.script_declares = cfg['declares']
+        st.update(w=w, hang=None, res=None, r2=None, phase='run', runs=[])
         try:
             res = eng.call('JobServer::block_on', [sref, root], None, None)
         except Hang as e:
@@ -218,7 +279,32 @@ def run_config(chk, pid, cfg):
             p_before, x_before = w.P, w.X
             r2 = eng.call('JobServer::do_force_return_tokens', [sref], None, None)
             st['exit_written'] = (w.P - p_before, w.X - x_before)
-        return res, r2
+        # further invocations of the same command on the world the earlier ones left (each a new process: new run id)
+        mark = len(w.log)
+        st['runs'].append({'step': 'first run', 'result': res.var, 'log_from': 0})
+        for k, step in enumerate(cfg['history']):
+            if res.var == 'Err' and not step.get('after_failure'):
+                break
+            if any(c['state'] != 'reaped' for c in w.children):
+                break
+            eng.call('JobServer::do_force_return_tokens', [sref], None, None) if pid != 'C08' or k else None
+            mutate(w, step.get('mutate'))
+            w.ev('next-run', step=step['name'])
+            mark = len(w.log)
+            if 'declares' in step:
+                w.script_declares = step['declares']
+            sref, root = schedmodel.new_run(eng, w, cfg['targets'], R + 1 + k, keep_going=cfg['keep_going'], top_level=cfg['top_level'],
+                                            should_build=sb)
+            w.wakeups = 0
+            w.timeouts = 0
+            try:
+                res = eng.call('JobServer::block_on', [sref, root], None, None)
+            except Hang as e:
+                st['hang'] = str(e)
+                return None, None
+            st['runs'].append({'step': step['name'], 'result': res.var, 'log_from': mark, 'expect': step.get('expect'),
+                               'expect_result': step.get('result', 'Ok')})
+        return st['res'], r2
 
     def judge(outcome, val, path):
         w = st['w']
@@ -229,7 +315,7 @@ def run_config(chk, pid, cfg):
                'other_locks': {k.decode('latin-1'): v for k, v in (cfg['other_locks'] or {}).items()},
                'variant': 'locked' if cfg['other_locks'] else ('unlocked-job' if cfg['deps'] else (
                    'nojob' if (cfg['no_do'] or cfg['prior']) else 'plain'))}
-        if pid != 'C12':
+        if pid not in ('C12', 'C02', 'C13'):
             chk.goal('sched: two jobs run at the same time', w.max_running >= 2)
             chk.goal('sched: a job fails', any(v == 'fail' for v in F['status_by_target'].values()))
             chk.goal('sched: run() returns Ok', outcome == 'ok' and val[0] is not None and val[0].var == 'Ok')
@@ -248,8 +334,8 @@ def run_config(chk, pid, cfg):
     chk.explore('builder::run: ' + cfg['name'], run, judge, sample, max_samples=1)
 
 
-def facts(eng, w, cfg):
-    """what one path did, read off the event log"""
+def facts(eng, w, cfg, lo=0, hi=None):
+    """what one path did, read off the event log (optionally only the events of one invocation)"""
     name_to_fid = {bytes(r['name']): k for k, r in w.files.items()}
     held = set()
     cur = None
@@ -264,7 +350,9 @@ def facts(eng, w, cfg):
     starts_after_failure = []
     pid_status = {c['pid']: status_class(eng, c['status']) for c in w.children}
     requested = [norm_name(t) for t in cfg['targets'] if t]
-    for i, (k, d) in enumerate(w.log):
+    for i, (k, d) in enumerate(w.log[:hi]):
+        if i < lo:
+            continue
         if k == 'job-start':
             cur = norm_name(d['target'].encode('latin-1'))
             digest.append('start(%s)' % d['target'])
@@ -357,6 +445,8 @@ def err_msg(eng, val):
 
 # ------------------------------------------------------------------------------------------------ judges
 def judge_c05(chk, eng, cfg, st, F, outcome, val, wit):
+    if cfg['history']:
+        return judge_history(chk, eng, cfg, st, F, outcome, val, wit)
     if outcome != 'ok' or st.get('hang'):
         return None             # aborts and hangs: C09
     res = result_var(val)
@@ -623,7 +713,60 @@ def judge_c12(chk, eng, cfg, st, F, outcome, val, wit):
     return None
 
 
-JUDGES = {'C12': judge_c12, 'C05': judge_c05, 'C06': judge_c06, 'C07': judge_c07, 'C08': judge_c08, 'C09': judge_c09}
+def judge_history(chk, eng, cfg, st, F, outcome, val, wit):
+    """a command repeated on the world its earlier invocations left, with something done by the user in between: the scripts that run
+    are exactly those of the targets whose inputs changed (C02); C13: .do edits / new candidates; C05: retry after a failure"""
+    if st.get('hang'):
+        return None
+    if outcome == 'panic':
+        return {'role': 'history:panic', 'kind': 'sched', 'witness': wit, 'what': 'abort in a repeated command: %s' % val.msg}
+    if outcome != 'ok':
+        return None
+    w = st['w']
+    runs = st['runs']
+    if not cfg['history']:
+        return None
+    first_failed = any(v == 'fail' for v in F0_status(eng, w, cfg, runs).values())
+    want_fail = any(s.get('only_after_failure') for s in cfg['history'])
+    if first_failed != want_fail:
+        return None             # this history is about the other outcome of the first run
+    chk.goal('history: ' + cfg['name'].split(': ', 1)[1][:60], len(runs) == 1 + len(cfg['history']))
+    for k in range(1, len(runs)):
+        r = runs[k]
+        hi = runs[k + 1]['log_from'] if k + 1 < len(runs) else None
+        Fk = facts(eng, w, cfg, r['log_from'], hi)
+        started = sorted(f['target'] for f in Fk['forks'])
+        if any(s == 'fail' for s in Fk['status_by_target'].values()) and r.get('expect_result') == 'Ok':
+            return None         # a script failed in a later run: the rest of this history is about successful rebuilds
+        wit2 = dict(wit, step=r['step'], started=started, expected=r['expect'])
+        if r['expect'] is not None and started != sorted(r['expect']):
+            extra = [t for t in started if t not in r['expect']]
+            missing = [t for t in r['expect'] if t not in started]
+            return {'role': 'history:%s' % ('runs-too-much' if extra else 'runs-too-little'), 'kind': 'sched', 'witness': wit2,
+                    'what': 'after "%s" the command runs the scripts of %r; expected %r (%s)' % (r['step'], started, r['expect'], cfg['name'])}
+        if r.get('expect_result') and r['result'] != r['expect_result']:
+            return {'role': 'history:result', 'kind': 'sched', 'witness': wit2,
+                    'what': 'after "%s" the command ends with %s, expected %s' % (r['step'], r['result'], r['expect_result'])}
+        step = cfg['history'][k - 1]
+        if step.get('chosen') and k == len(runs) - 1 or (step.get('chosen') and hi is not None):
+            tid = F['name_to_fid'].get(cfg['targets'][0])
+            names = {bytes(w.files[s_]['name']).decode(): d_['mode'] for (t_, s_), d_ in w.deps.items() if t_ == tid and s_ in w.files}
+            if step.get('chosen') and hi is None and tuple(names.get(step['chosen'], b'')) != tuple(b'm'):
+                return {'role': 'history:wrong-do-file', 'kind': 'sched', 'witness': wit2,
+                        'what': 'after "%s" the target should be rebuilt by %s; recorded .do edges: %r' % (r['step'], step['chosen'], names)}
+        for nm, tag in (step.get('content') or {}).items():
+            if hi is None and w.content.get(tuple(nm.encode())) != tag:
+                return {'role': 'history:user-file-changed', 'kind': 'sched', 'witness': wit2,
+                        'what': 'after "%s" file %s has content %r, expected %r' % (r['step'], nm, w.content.get(tuple(nm.encode())), tag)}
+    return None
+
+
+def F0_status(eng, w, cfg, runs):
+    hi = runs[1]['log_from'] if len(runs) > 1 else None
+    return facts(eng, w, cfg, 0, hi)['status_by_target']
+
+
+JUDGES = {'C02': judge_history, 'C13': judge_history, 'C12': judge_c12, 'C05': judge_c05, 'C06': judge_c06, 'C07': judge_c07, 'C08': judge_c08, 'C09': judge_c09}
 
 
 TRACE_DO = 'echo %s >> trace\necho out-%s\n'
@@ -720,9 +863,72 @@ REPLAYS = {
 }
 
 
+def history_replay(scn, c):
+    """real binaries: the same history (command, user action, command again ...) in a throw-away project; after every step the
+    scripts that ran are compared with the expectation"""
+    w = c.get('witness') or {}
+    cfg = next((x for x in configs(True) if x['name'] == w.get('config')), None)
+    if cfg is None or any(s_.get('only_after_failure') for s_ in cfg['history']):
+        return False, 'no replay for this history'
+    targets = [t.decode() for t in cfg['targets']]
+    body = 'echo @T@ >> trace\nif [ -s decl-@T@ ]; then redo-ifchange $(cat decl-@T@); fi\necho out-of-@T@\n'
+    files = {}
+    for t in targets:
+        if t.encode() not in cfg['no_do']:
+            files[t + '.do'] = body.replace('@T@', t)
+    if cfg['default_do']:
+        files['default.do'] = 'echo $1 >> trace\nif [ -s decl-$1 ]; then redo-ifchange $(cat decl-$1); fi\necho out-of-$1-by-default\n'
+    for name, (cells, fs_t) in (cfg['prior'] or {}).items():
+        if fs_t is not None:
+            files[name.decode()] = 'source v1\n'
+
+    def decl_cmds(d):
+        out = []
+        for t in targets:
+            srcname = (d or {}).get(tuple(t.encode()))
+            out.append('printf %%s "%s" > decl-%s' % (srcname.decode() if srcname else '', t))
+            if srcname:
+                out.append('[ -e %s ] || echo "source v1" > %s' % (srcname.decode(), srcname.decode()))
+        return '; '.join(out)
+    cmd = 'redo-ifchange ' + ' '.join(targets)
+    lines = [decl_cmds(cfg['declares']), ': > trace', cmd + ' >run0.log 2>&1; echo "STEP 0 rc=$? ran=$(sort trace | tr "\\n" " ")"']
+    for k, step in enumerate(cfg['history']):
+        for op in ([step['mutate']] if isinstance(step.get('mutate'), str) else (step.get('mutate') or [])):
+            kind, name = op.split(':', 1)
+            lines.append('sleep 0.05')
+            if kind == 'touch':
+                lines.append('echo "# edited by the user in step %d" >> %s' % (k + 1, name))
+            elif kind == 'create':
+                t = name[:-3] if name.endswith('.do') else name
+                lines.append("printf '%s' > %s" % (body.replace('@T@', t).replace('\n', '\\n'), name) if name.endswith('.do')
+                             else 'echo created > %s' % name)
+            elif kind == 'remove':
+                lines.append('rm -f %s' % name)
+        if 'declares' in step:
+            lines.append(decl_cmds(step['declares']))
+        lines.append(': > trace')
+        lines.append(cmd + ' >run%d.log 2>&1; echo "STEP %d rc=$? ran=$(sort trace | tr "\\n" " ")"' % (k + 1, k + 1))
+    rc, out = scn.run(files, '\n'.join(lines), timeout=180)
+    c['native_scenario'] = {'files': files, 'script': lines}
+    got = {}
+    for l in out.split('\n'):
+        if l.startswith('STEP '):
+            parts = l.split(' ', 3)
+            got[int(parts[1])] = (parts[2], sorted(parts[3][4:].split()) if len(parts) > 3 else [])
+    bad = []
+    for k, step in enumerate(cfg['history']):
+        if step.get('expect') is None or (k + 1) not in got:
+            continue
+        if got[k + 1][1] != sorted(step['expect']):
+            bad.append('after "%s": ran %r, expected %r' % (step['name'], got[k + 1][1], sorted(step['expect'])))
+    return bool(bad), 'real binaries, `%s` repeated: %s' % (cmd, '; '.join(bad) if bad else 'as expected %r' % (got,))
+
+
 def replay_cand(chk, scn, c):
     """real binaries; schedules that depend on the pseudo-random polling order of futures::select! are retried"""
     role = c.get('role', '')
+    if role.startswith('history:'):
+        return history_replay(scn, c)
     variant = (c.get('witness') or {}).get('variant', 'plain')
     keys = sorted(REPLAYS, key=lambda k: -len(k))
     for prefix in keys:
